@@ -21,7 +21,8 @@ def describe(tier):
                 "requirement key v). Oracle: InvalidExpressionError is raised under every assignment iff the structural criterion R4 says "
                 "invalid, and under none otherwise; is_valid_expression('Muss <e>', setter) returns (True, None) resp. (False, non-empty "
                 "reason) accordingly; in the quick tier additionally all ASTs with 4 leaves and distinct keys through the transformer entry "
-                "point and the validity check only (the setter writes a ContextVar read by the harness evaluators), also for the two-part forms. "
+                "point and the validity check only (the setter writes a ContextVar read by the harness evaluators; expressions with <= 3 leaves also with the library's "
+                "ContentEvaluationResult-based evaluators and a setter that stores the dumped result for the injected provider), also for the two-part forms. "
                 "Non-trivial = expressions with >= 1 O/X operator.",
         "bounds": {"sizes": BOUNDS[tier]},
         "exhaustive": True,
@@ -31,6 +32,12 @@ def describe(tier):
 
 def plan(tier, seed):
     items = []
+    # the documented usage of is_valid_expression: ContentEvaluationResult-based evaluators + a setter that stores the generated
+    # content evaluation result where the injected provider finds it
+    for n in (1, 2, 3) if tier == "quick" else (1, 2, 3, 4):
+        parts = {1: 1, 2: 1, 3: 8, 4: 64}[n]
+        for p in range(parts):
+            items.append({"n": n, "lab": "all" if n <= 2 else "distinct", "part": p, "parts": parts, "seed": seed, "cer_mode": True})
     if tier == "quick":
         # one size beyond the full bound, distinct keys: transformer entry point under all RC assignments + the validity check
         for p in range(128):
@@ -128,6 +135,31 @@ def check_expr(expr, seed, light=False):
     return out, n
 
 
+def check_expr_cer_mode(expr):
+    from mc import impl_modes as M
+
+    I = X.init()
+    out = []
+    tt = X.parse(expr)[2]
+    valid = R3.valid(tt)
+    ahb = f"Muss {expr}"
+    case = {"expr": expr, "cer_mode": True}
+    try:
+        r = I.try_call(lambda: M.run_is_valid_cer(ahb))
+    finally:
+        M.restore()
+    if r[0] == "exc":
+        out.append({"kind": "is-valid-raised/cer-evaluators", "case": case, "expected": str(valid), "observed": r[1], "msg": ahb})
+    else:
+        res = r[1]
+        ok = (res == (True, None)) if valid else (isinstance(res, tuple) and len(res) == 2 and res[0] is False
+                                                  and isinstance(res[1], str) and res[1] != "")
+        if not ok:
+            out.append({"kind": "is-valid-wrong/cer-evaluators", "case": case, "expected": "(True, None)" if valid else "(False, reason)",
+                        "observed": repr(res)[:200], "msg": ahb})
+    return out, 1
+
+
 def run_item(item):
     X.init()
     r = Result()
@@ -138,7 +170,10 @@ def run_item(item):
         if i % item["parts"] != item["part"]:
             continue
         expr = X.render(ast, item["seed"])
-        vs, n = check_expr(expr, item["seed"], light=item.get("light", False))
+        if item.get("cer_mode"):
+            vs, n = check_expr_cer_mode(expr)
+        else:
+            vs, n = check_expr(expr, item["seed"], light=item.get("light", False))
         r.evaluations += n
         r.states += n
         r.transitions += n
@@ -160,4 +195,6 @@ def _ops(t):
 
 
 def replay(case):
+    if case.get("cer_mode"):
+        return check_expr_cer_mode(case["expr"])[0]
     return check_expr(case["expr"], case.get("seed", 0))[0]
